@@ -459,7 +459,8 @@ def _tasks(ctx):
 
 AMBIGUOUS_NAMES = ["h2o_FCIDUMP.molden", "x.FCIDUMP.extxyz", "FCIDUMP.xyz", "POSCAR.xyz", "POSCAR_x.cube", "CHGCAR.cube",
                    "LOCPOT.sdf", "AECCAR0.json", "a.cp2k.out", "b.out", "FCIDUMP.cp2k.out", "POSCAR.FCIDUMP", "x.fchk.molden",
-                   "x.molden.input", "x.xyz.pdb", "CHGCAR.fchk", "job.log", "FCIDUMP", "POSCAR", "x.mkl.wfn"]
+                   "x.molden.input", "x.xyz.pdb", "CHGCAR.fchk", "job.log", "FCIDUMP", "POSCAR", "x.mkl.wfn", "x.wfn", "x.molden", "x.cube",
+                   "x.mkl", "x.wfx", "x.json", "x.nothing"]
 
 
 def check_ambiguous_name(name, src, mode):
@@ -486,6 +487,15 @@ def check_ambiguous_name(name, src, mode):
                 got = "object"
             except (LoadError, FileFormatError) as exc:
                 got = type(exc).__name__
+                # no module whose pattern matches the name offers this entry point: the documented outcome is
+                # FileFormatError (nothing was parsed, so nothing can be a *load* error)
+                import fnmatch
+
+                able = [m for m in api.FORMAT_MODULES.values()
+                        if any(fnmatch.fnmatch(name, pat) for pat in m.PATTERNS) and hasattr(m, fn)]
+                if not able and got != "FileFormatError":
+                    out.append((f"class:{got}-for-unsupported:{fn}:name-derived-format",
+                                f"{fn}({name!r}): no format recognising this name offers {fn}, expected FileFormatError, got {got}: {exc}"[:300]))
             except Exception as exc:  # noqa: BLE001
                 out.append((f"escape:{type(exc).__name__}:name-derived-format",
                             f"{fn}({name!r}) with the content of {src} ({mode}) raised {type(exc).__name__}: {exc}"[:300]))
